@@ -383,6 +383,16 @@ func init() {
 	reg("runtime.KeepAlive", func(fr *frame, a []value) value { return nil })
 	reg("runtime.SetFinalizer", func(fr *frame, a []value) value { return nil })
 
+	// ---- x/text (contract stub: identity on ASCII; transcoding is outside every claim) ----
+	reg("(*golang.org/x/text/encoding.Decoder).String", func(fr *frame, a []value) value {
+		stubHit("x/text Decoder.String (identity)")
+		return tuple{a[1], iface{}}
+	})
+	reg("(*golang.org/x/text/encoding.Decoder).Bytes", func(fr *frame, a []value) value {
+		stubHit("x/text Decoder.Bytes (identity)")
+		return tuple{a[1], iface{}}
+	})
+
 	// ---- runtime ----
 	reg("runtime.Callers", func(fr *frame, a []value) value { return 0 })
 	reg("runtime.Caller", func(fr *frame, a []value) value { return tuple{uintptr(0), "", 0, false} })
